@@ -759,6 +759,44 @@ func (sf *SexpFunction) IsLazyCallArg(i int) bool {
 	return sf.IsLazyFormal(i)
 }
 
+// lazyCallArgs tells for each element of a call form whether it is passed
+// unevaluated. An argument belongs to the parameter at its position, or,
+// when a function with declared parameter types is called with name: value
+// pairs, to the parameter named before it (FunctionCallNameTypeCheck puts
+// the values in the declared order afterwards).
+func (sf *SexpFunction) lazyCallArgs(args []Sexp) []bool {
+	lazy := make([]bool, len(args))
+	byName := false
+	if sf.inputTypes != nil && !sf.varargs {
+		for _, expr := range args {
+			if sym, isSym := expr.(*SexpSymbol); isSym && sym.colonTail {
+				byName = true
+				break
+			}
+		}
+	}
+	if !byName {
+		for i := range args {
+			lazy[i] = sf.IsLazyCallArg(i)
+		}
+		return lazy
+	}
+	// paired as FunctionCallNameTypeCheck does: a name, then its value
+	for i := 0; i+1 < len(args); i++ {
+		label, isSym := args[i].(*SexpSymbol)
+		if !isSym || !label.colonTail {
+			continue
+		}
+		i++
+		for k, formal := range sf.argSyms {
+			if formal.name == label.name {
+				lazy[i] = sf.IsLazyFormal(k)
+			}
+		}
+	}
+	return lazy
+}
+
 func (sf *SexpFunction) SetClosing(clos *Closing) {
 	ps4 := NewPrintStateWithIndent(4)
 	pre, err := sf.ShowClosing(clos.env, ps4, "prev")
